@@ -1,7 +1,9 @@
 import NrDaemon.Model.Respawn
+import NrDaemon.Model.PidFile
+import NrDaemon.Gen.Watcher
 /-!
   C20 — crashed workers are respawned; only one daemon owns a pid file.
-  (Part 1: the respawn decision.  Part 2, the pid-file machine, is in `NrDaemon/Props/C20Pid.lean` when present.)
+  (Part 1: the respawn decision.  Part 2: the pid-file machine and the watcher's signal channel.)
 -/
 open Gen.Respawn
 
@@ -49,3 +51,383 @@ theorem C20_watcher_loop (outs : List (Option Nat)) :
   refine ⟨rfl, ?_, ?_⟩
   · intro w h; simp [watcherLoop, h]
   · intro w h; simp [watcherLoop, h]
+
+/-! # Part 2 — only one daemon owns a pid file; a SIGTERM to the watcher is not lost -/
+
+set_option linter.unusedSimpArgs false
+set_option linter.unusedVariables false
+
+structure PF.Inv (s : PF) : Prop where
+  lockPc : ∀ i p, s.lock i = some p → (s.pc p).holdsLock i = true
+  pcLock : ∀ p i, (s.pc p).holdsLock i = true → s.lock i = some p
+  ownPath : ∀ p i, (s.pc p).owns i = true → s.path = some i
+  freshPath : ∀ i, s.path = some i → i < s.next
+  freshPc : ∀ p i, (s.pc p).ino = some i → i < s.next
+
+theorem pf_init_inv : ({} : PF).Inv := by
+  constructor <;> simp [PC.holdsLock, PC.owns, PC.ino]
+
+@[simp] theorem upd_same {α : Type} (f : Nat → α) (a : Nat) (b : α) : upd f a b a = b := by simp [upd]
+theorem upd_other {α : Type} (f : Nat → α) (a x : Nat) (b : α) (h : x ≠ a) : upd f a b x = f x := by simp [upd, h]
+
+theorem holdsLock_ino {c : PC} {i : Nat} (h : c.holdsLock i = true) : c.ino = some i := by
+  cases c <;> simp_all [PC.holdsLock, PC.ino]
+
+theorem owns_holds {c : PC} {i : Nat} (h : c.owns i = true) : c.holdsLock i = true := by
+  cases c <;> simp_all [PC.holdsLock, PC.owns]
+
+/-- every step of every process preserves the invariant -/
+theorem pf_step_inv (s : PF) (p : Nat) (a : PAct) (h : s.Inv) : (s.step p a).Inv := by
+  obtain ⟨h1, h2, h3, h4, h5⟩ := h
+  unfold PF.step
+  split
+  · -- open
+    rename_i hpc
+    split
+    · rename_i i hpath
+      refine ⟨?_, ?_, ?_, h4, ?_⟩
+      · intro j q hl
+        by_cases hq : q = p
+        · subst hq; have := h1 j q hl; rw [hpc] at this; simp [PC.holdsLock] at this
+        · simp only [upd_other _ _ _ _ hq]; exact h1 j q hl
+      · intro q j hh
+        by_cases hq : q = p
+        · subst hq; simp [PC.holdsLock] at hh
+        · simp only [upd_other _ _ _ _ hq] at hh; exact h2 q j hh
+      · intro q j hh
+        by_cases hq : q = p
+        · subst hq; simp [PC.owns] at hh
+        · simp only [upd_other _ _ _ _ hq] at hh; exact h3 q j hh
+      · intro q j hh
+        by_cases hq : q = p
+        · subst hq; simp [PC.ino] at hh; subst hh; exact h4 i hpath
+        · simp only [upd_other _ _ _ _ hq] at hh; exact h5 q j hh
+    · rename_i hpath
+      refine ⟨?_, ?_, ?_, ?_, ?_⟩
+      · intro j q hl
+        by_cases hq : q = p
+        · subst hq; have := h1 j q hl; rw [hpc] at this; simp [PC.holdsLock] at this
+        · simp only [upd_other _ _ _ _ hq]; exact h1 j q hl
+      · intro q j hh
+        by_cases hq : q = p
+        · subst hq; simp [PC.holdsLock] at hh
+        · simp only [upd_other _ _ _ _ hq] at hh; exact h2 q j hh
+      · intro q j hh
+        by_cases hq : q = p
+        · subst hq; simp [PC.owns] at hh
+        · simp only [upd_other _ _ _ _ hq] at hh
+          have := h3 q j hh; rw [hpath] at this; cases this
+      · intro i hi
+        have hi' : s.next = i := by simpa using hi
+        show i < s.next + 1
+        omega
+      · intro q j hh
+        show j < s.next + 1
+        by_cases hq : q = p
+        · subst hq
+          have hj : s.next = j := by simpa [PC.ino] using hh
+          omega
+        · simp only [upd_other _ _ _ _ hq] at hh; have := h5 q j hh; omega
+  · -- setlk
+    rename_i i hpc
+    split
+    · rename_i hfree
+      refine ⟨?_, ?_, ?_, h4, ?_⟩
+      · intro j q hl
+        by_cases hj : j = i
+        · subst hj; simp at hl; subst hl; simp [PC.holdsLock]
+        · simp only [upd_other _ _ _ _ hj] at hl
+          by_cases hq : q = p
+          · subst hq; have := h1 j q hl; rw [hpc] at this; simp [PC.holdsLock] at this
+          · simp only [upd_other _ _ _ _ hq]; exact h1 j q hl
+      · intro q j hh
+        by_cases hq : q = p
+        · subst hq; simp [PC.holdsLock] at hh; subst hh; simp
+        · simp only [upd_other _ _ _ _ hq] at hh
+          have := h2 q j hh
+          by_cases hj : j = i
+          · subst hj; rw [hfree] at this; cases this
+          · simp only [upd_other _ _ _ _ hj]; exact this
+      · intro q j hh
+        by_cases hq : q = p
+        · subst hq; simp [PC.owns] at hh
+        · simp only [upd_other _ _ _ _ hq] at hh; exact h3 q j hh
+      · intro q j hh
+        by_cases hq : q = p
+        · subst hq; simp [PC.ino] at hh; rw [← hh]; exact h5 q i (by rw [hpc]; rfl)
+        · simp only [upd_other _ _ _ _ hq] at hh; exact h5 q j hh
+    · refine ⟨?_, ?_, ?_, h4, ?_⟩
+      · intro j q hl
+        by_cases hq : q = p
+        · subst hq; have := h1 j q hl; rw [hpc] at this; simp [PC.holdsLock] at this
+        · simp only [upd_other _ _ _ _ hq]; exact h1 j q hl
+      · intro q j hh
+        by_cases hq : q = p
+        · subst hq; simp [PC.holdsLock] at hh
+        · simp only [upd_other _ _ _ _ hq] at hh; exact h2 q j hh
+      · intro q j hh
+        by_cases hq : q = p
+        · subst hq; simp [PC.owns] at hh
+        · simp only [upd_other _ _ _ _ hq] at hh; exact h3 q j hh
+      · intro q j hh
+        by_cases hq : q = p
+        · subst hq; simp [PC.ino] at hh
+        · simp only [upd_other _ _ _ _ hq] at hh; exact h5 q j hh
+  · -- stat
+    rename_i i hpc
+    have hmine : s.lock i = some p := h2 p i (by rw [hpc]; simp [PC.holdsLock])
+    split
+    · rename_i hpath
+      refine ⟨?_, ?_, ?_, h4, ?_⟩
+      · intro j q hl
+        by_cases hq : q = p
+        · subst hq; have := h1 j q hl; rw [hpc] at this; simp [PC.holdsLock] at this; subst this; simp [PC.holdsLock]
+        · simp only [upd_other _ _ _ _ hq]; exact h1 j q hl
+      · intro q j hh
+        by_cases hq : q = p
+        · subst hq; simp [PC.holdsLock] at hh; subst hh; exact hmine
+        · simp only [upd_other _ _ _ _ hq] at hh; exact h2 q j hh
+      · intro q j hh
+        by_cases hq : q = p
+        · subst hq; simp [PC.owns] at hh; subst hh; exact hpath
+        · simp only [upd_other _ _ _ _ hq] at hh; exact h3 q j hh
+      · intro q j hh
+        by_cases hq : q = p
+        · subst hq; simp [PC.ino] at hh; rw [← hh]; exact h5 q i (by rw [hpc]; rfl)
+        · simp only [upd_other _ _ _ _ hq] at hh; exact h5 q j hh
+    · refine ⟨?_, ?_, ?_, h4, ?_⟩
+      · intro j q hl
+        by_cases hj : j = i
+        · subst hj; simp at hl
+        · simp only [upd_other _ _ _ _ hj] at hl
+          by_cases hq : q = p
+          · subst hq; have := h1 j q hl; rw [hpc] at this; simp [PC.holdsLock] at this; exact absurd this.symm hj
+          · simp only [upd_other _ _ _ _ hq]; exact h1 j q hl
+      · intro q j hh
+        by_cases hq : q = p
+        · subst hq; simp [PC.holdsLock] at hh
+        · simp only [upd_other _ _ _ _ hq] at hh
+          have := h2 q j hh
+          by_cases hj : j = i
+          · subst hj; rw [hmine] at this; injection this with this; exact absurd this.symm hq
+          · simp only [upd_other _ _ _ _ hj]; exact this
+      · intro q j hh
+        by_cases hq : q = p
+        · subst hq; simp [PC.owns] at hh
+        · simp only [upd_other _ _ _ _ hq] at hh; exact h3 q j hh
+      · intro q j hh
+        by_cases hq : q = p
+        · subst hq; simp [PC.ino] at hh
+        · simp only [upd_other _ _ _ _ hq] at hh; exact h5 q j hh
+  · -- trunc
+    rename_i i hpc
+    refine ⟨?_, ?_, ?_, h4, ?_⟩
+    · intro j q hl
+      by_cases hq : q = p
+      · subst hq; have := h1 j q hl; rw [hpc] at this; simp [PC.holdsLock] at this; subst this; simp [PC.holdsLock]
+      · simp only [upd_other _ _ _ _ hq]; exact h1 j q hl
+    · intro q j hh
+      by_cases hq : q = p
+      · subst hq; simp [PC.holdsLock] at hh; rw [← hh]; exact h2 q i (by rw [hpc]; simp [PC.holdsLock])
+      · simp only [upd_other _ _ _ _ hq] at hh; exact h2 q j hh
+    · intro q j hh
+      by_cases hq : q = p
+      · subst hq; simp [PC.owns] at hh; rw [← hh]; exact h3 q i (by rw [hpc]; simp [PC.owns])
+      · simp only [upd_other _ _ _ _ hq] at hh; exact h3 q j hh
+    · intro q j hh
+      by_cases hq : q = p
+      · subst hq; simp [PC.ino] at hh; rw [← hh]; exact h5 q i (by rw [hpc]; rfl)
+      · simp only [upd_other _ _ _ _ hq] at hh; exact h5 q j hh
+  · -- remove
+    rename_i i hpc
+    have hmine : s.lock i = some p := h2 p i (by rw [hpc]; simp [PC.holdsLock])
+    have hpath : s.path = some i := h3 p i (by rw [hpc]; simp [PC.owns])
+    refine ⟨?_, ?_, ?_, ?_, ?_⟩
+    · intro j q hl
+      by_cases hq : q = p
+      · subst hq; have := h1 j q hl; rw [hpc] at this; simp [PC.holdsLock] at this; subst this; simp [PC.holdsLock]
+      · simp only [upd_other _ _ _ _ hq]; exact h1 j q hl
+    · intro q j hh
+      by_cases hq : q = p
+      · subst hq; simp [PC.holdsLock] at hh; subst hh; exact hmine
+      · simp only [upd_other _ _ _ _ hq] at hh; exact h2 q j hh
+    · intro q j hh
+      by_cases hq : q = p
+      · subst hq; simp [PC.owns] at hh
+      · simp only [upd_other _ _ _ _ hq] at hh
+        -- another owner would own the same inode and hold the same lock
+        have hpj := h3 q j hh
+        rw [hpath] at hpj; injection hpj with hpj; subst hpj
+        have := h2 q i (owns_holds hh)
+        rw [hmine] at this; injection this with this; exact absurd this.symm hq
+    · intro j hj; simp at hj
+    · intro q j hh
+      by_cases hq : q = p
+      · subst hq; simp [PC.ino] at hh; rw [← hh]; exact h5 q i (by rw [hpc]; rfl)
+      · simp only [upd_other _ _ _ _ hq] at hh; exact h5 q j hh
+  · -- close
+    rename_i i hpc
+    have hmine : s.lock i = some p := h2 p i (by rw [hpc]; simp [PC.holdsLock])
+    refine ⟨?_, ?_, ?_, h4, ?_⟩
+    · intro j q hl
+      by_cases hj : j = i
+      · subst hj; simp at hl
+      · simp only [upd_other _ _ _ _ hj] at hl
+        by_cases hq : q = p
+        · subst hq; have := h1 j q hl; rw [hpc] at this; simp [PC.holdsLock] at this; exact absurd this.symm hj
+        · simp only [upd_other _ _ _ _ hq]; exact h1 j q hl
+    · intro q j hh
+      by_cases hq : q = p
+      · subst hq; simp [PC.holdsLock] at hh
+      · simp only [upd_other _ _ _ _ hq] at hh
+        have := h2 q j hh
+        by_cases hj : j = i
+        · subst hj; rw [hmine] at this; injection this with this; exact absurd this.symm hq
+        · simp only [upd_other _ _ _ _ hj]; exact this
+    · intro q j hh
+      by_cases hq : q = p
+      · subst hq; simp [PC.owns] at hh
+      · simp only [upd_other _ _ _ _ hq] at hh; exact h3 q j hh
+    · intro q j hh
+      by_cases hq : q = p
+      · subst hq; simp [PC.ino] at hh
+      · simp only [upd_other _ _ _ _ hq] at hh; exact h5 q j hh
+  · -- die
+    refine ⟨?_, ?_, ?_, h4, ?_⟩
+    · intro j q hl
+      simp only at hl
+      split at hl
+      · cases hl
+      · rename_i hne
+        by_cases hq : q = p
+        · subst hq; exact absurd hl hne
+        · simp only [upd_other _ _ _ _ hq]; exact h1 j q hl
+    · intro q j hh
+      by_cases hq : q = p
+      · subst hq; simp [PC.holdsLock] at hh
+      · simp only [upd_other _ _ _ _ hq] at hh
+        have := h2 q j hh
+        simp only
+        rw [this]
+        simp [hq]
+    · intro q j hh
+      by_cases hq : q = p
+      · subst hq; simp [PC.owns] at hh
+      · simp only [upd_other _ _ _ _ hq] at hh; exact h3 q j hh
+    · intro q j hh
+      by_cases hq : q = p
+      · subst hq; simp [PC.ino] at hh
+      · simp only [upd_other _ _ _ _ hq] at hh; exact h5 q j hh
+  · exact ⟨h1, h2, h3, h4, h5⟩
+
+theorem pf_run_inv (s : PF) (es : List (Nat × PAct)) (h : s.Inv) : (s.run es).Inv := by
+  induction es generalizing s with
+  | nil => exact h
+  | cons e es ih => exact ih (s.step e.1 e.2) (pf_step_inv s e.1 e.2 h)
+
+/-- **C20 (at most one daemon owns the pid file, however many race for it).**  In every state reachable by any
+interleaving of any number of processes running `CreatePidFile` (open, lock, same-file re-check with retry, truncate),
+exiting cleanly (`Remove`: unlink, then close) or dying at any step: two processes for which `CreatePidFile` has decided
+the file is theirs are the same process; the file they own is the one the path names; and they hold its record lock. -/
+theorem C20_at_most_one_owner (es : List (Nat × PAct)) (p q i j : Nat)
+    (hp : (((({} : PF).run es).pc p).owns i) = true) (hq : (((({} : PF).run es).pc q).owns j) = true) :
+    p = q ∧ i = j ∧ (({} : PF).run es).path = some i ∧ (({} : PF).run es).lock i = some p := by
+  have h := pf_run_inv {} es pf_init_inv
+  have h1 := h.ownPath p i hp
+  have h2 := h.ownPath q j hq
+  have hij : i = j := by rw [h1] at h2; injection h2
+  subst hij
+  have l1 := h.pcLock p i (owns_holds hp)
+  have l2 := h.pcLock q i (owns_holds hq)
+  rw [l1] at l2
+  injection l2 with l2
+  exact ⟨l2, rfl, h1, l1⟩
+
+/-- **C20 (a holder that dies releases the file; a successor can start).**  From any reachable state in which no live
+process holds a lock any more (the holder was killed, or exited cleanly, and nobody else is in the middle of an attempt),
+a fresh process running `CreatePidFile` alone becomes the owner in four steps, whether the file still exists (killed
+holder) or not (clean exit). -/
+theorem C20_successor_starts (s : PF) (h : s.Inv) (p : Nat) (hp : s.pc p = .start)
+    (hfree : ∀ i, s.lock i = none) :
+    ∃ i, ((s.run [(p, .open), (p, .setlk), (p, .stat), (p, .trunc)]).pc p) = .holder i := by
+  cases hpath : s.path with
+  | some i =>
+    refine ⟨i, ?_⟩
+    simp [PF.run, PF.step, hp, hpath, hfree, upd]
+  | none =>
+    refine ⟨s.next, ?_⟩
+    simp [PF.run, PF.step, hp, hpath, hfree, upd]
+
+/-- dying releases every lock the process held, at whatever step it dies -/
+theorem C20_death_releases (s : PF) (h : s.Inv) (p i : Nat) : (s.step p .die).lock i ≠ some p := by
+  simp only [PF.step]
+  split <;> simp_all
+
+/-! ## The watcher's SIGTERM -/
+
+/-- **C20 (a SIGTERM to the watcher is not lost and ends supervision).**  With a signal channel of capacity ≥ 1: a
+SIGTERM arriving while none is pending is kept whatever the watcher is doing (spawning a worker, or waiting); while one
+is pending and the watcher is in its select, taking it is enabled; and taking it forwards the signal to the current
+worker and ends supervision.  -/
+theorem C20_sigterm_not_lost (s : WS) (hcap : 1 ≤ s.cap) (hb : s.buf = 0) :
+    (s.step .sigterm).lost = s.lost ∧ (s.step .sigterm).buf = 1 := by
+  simp only [WS.step]
+  have : s.phase = .selecting ∨ s.buf < s.cap := Or.inr (by omega)
+  rw [if_pos this]
+  simp [hb]
+
+theorem C20_sigterm_ends_supervision (s : WS) (hsel : s.phase = .selecting) (hb : 0 < s.buf) :
+    (s.step .takeSignal).phase = .exited ∧ (s.step .takeSignal).forwarded = true ∧
+    ∀ es, ((s.step .takeSignal).run es).spawns = (s.step .takeSignal).spawns := by
+  have hstep : s.step .takeSignal = { s with buf := s.buf - 1, forwarded := true, phase := .exited } := by
+    simp only [WS.step]; rw [if_pos ⟨hsel, hb⟩]
+  rw [hstep]
+  refine ⟨rfl, rfl, ?_⟩
+  intro es
+  -- once exited no event spawns a worker
+  have key : ∀ (t : WS), t.phase = .exited → ∀ es, (t.run es).spawns = t.spawns ∧ (t.run es).phase = .exited := by
+    intro t ht es
+    induction es generalizing t with
+    | nil => exact ⟨rfl, ht⟩
+    | cons e es ih =>
+      have hs : (t.step e).phase = .exited ∧ (t.step e).spawns = t.spawns := by
+        cases e <;> simp [WS.step, ht] <;> split <;> simp_all
+      have := ih (t.step e) hs.1
+      exact ⟨by simpa [WS.run, hs.2] using this.1, by simpa [WS.run] using this.2⟩
+  exact (key _ rfl es).1
+
+/-- with an unbuffered channel the signal IS lost while the watcher is busy spawning: the capacity matters -/
+theorem C20_unbuffered_loses : (({ cap := 0 } : WS).run [.sigterm, .spawned]).lost = 1 ∧
+    (({ cap := 0 } : WS).run [.sigterm, .spawned]).buf = 0 := by decide
+
+example : (({ cap := 1 } : WS).run [.sigterm, .spawned, .takeSignal]).forwarded = true := by decide
+
+/-! ## Sanity -/
+
+-- two racers on a fresh path: exactly one gets the lock, the other fails with ErrLocked
+example : (({} : PF).run [(1, .open), (2, .open), (2, .setlk), (1, .setlk), (2, .stat), (2, .trunc)]).pc 2 = .holder 0 := by decide
+example : (({} : PF).run [(1, .open), (2, .open), (2, .setlk), (1, .setlk)]).pc 1 = .failed := by decide
+-- the race of the source comment: B opened the old file, A removes it and exits, B locks the deleted file, notices, retries
+example : (({} : PF).run [(1, .open), (1, .setlk), (1, .stat), (1, .trunc), (2, .open), (1, .remove), (1, .close),
+    (2, .setlk), (2, .stat)]).pc 2 = .start := by decide
+
+/-! ## The regenerated tie -/
+
+/-- **C20 (the models are the current source's).**  watcher.go: the signal channel has capacity ≥ 1 and is notified of
+SIGTERM; the loop spawns a worker and selects between the worker's status (respawn decision, or return) and the signal
+(forward it to the worker with `worker.Process.Signal`, return).  pidfile.go: `CreatePidFile` opens with
+`O_CREATE|O_WRONLY`, takes an exclusive non-blocking record lock (`F_WRLCK`, `F_SETLK`), compares `os.Stat(name)` with
+`f.Stat()` by `os.SameFile`, closes and retries on a mismatch, truncates and returns; `Remove` unlinks the name before it
+closes the descriptor; and nothing else in the file opens a file by name (closing any descriptor of the pid file would
+drop the process's record lock on it). -/
+theorem C20_sources_tied :
+    Gen.Watcher.signalChanCap ≥ 1 ∧ Gen.Watcher.notified = ["syscall.SIGTERM"] ∧ Gen.Watcher.spawnInLoop = true ∧
+    Gen.Watcher.onStatus = ["status.ShouldRespawn", "log.Errorf", "log.Infof", "return"] ∧
+    Gen.Watcher.onSignal = ["log.Infof", "worker.Process.Signal", "return"] ∧
+    Gen.Watcher.openers = ["CreatePidFile:os.OpenFile"] ∧
+    Gen.Watcher.lockFacts = ["open:os.O_CREATE|os.O_WRONLY", "type:syscall.F_WRLCK", "cmd:syscall.F_SETLK"] ∧
+    Gen.Watcher.createCalls = ["os.OpenFile", "return", "setWriteLock", "f.Close", "return", "os.Stat", "f.Name", "log.Debugf",
+      "f.Close", "continue", "f.Stat", "f.Close", "return", "os.SameFile", "log.Debugf", "f.Close", "continue", "f.Truncate",
+      "f.Close", "return", "return", "return"] ∧
+    Gen.Watcher.removeCalls = ["os.Remove", "f.file.Name", "return", "return", "f.file.Close"] := by
+  decide
